@@ -74,7 +74,8 @@ PROPS["C15"] = engine_prop("C15", ["proofs/AnchorsSitesCtx.v"], "C15",
 EVAL_MODEL = ["gen/CmpGen.v", "gen/ArithGen.v", "gen/OpsGen.v", "gen/EngineGen.v"]
 REFINE_FILES = EVAL_MODEL + ["proofs/AnchorsEngine.v", "proofs/EngineProofs.v", "proofs/EngineTheorems.v", "proofs/FactsProofs.v",
                              "proofs/ActionTheorems.v", "proofs/SnapInj.v", "proofs/C05Proof.v", "proofs/MemoProofs.v", "proofs/MemoKeep.v",
-                             "proofs/StateTrack.v", "proofs/Refinement.v", "proofs/RefineTheorems.v", "proofs/MemoTheorems.v", "proofs/Findings.v"]
+                             "proofs/StateTrack.v", "proofs/Refinement.v", "proofs/RefineTheorems.v", "proofs/MemoTheorems.v", "proofs/SnapContain.v", "proofs/Frame.v",
+                             "proofs/FrameTheorems.v", "proofs/Findings.v"]
 EVAL_TRUST = ENGINE_TRUST + [
     "memoising evaluator coq/model/Eval.v (hand-written twin of ast/*.go Evaluate/Assign/Execute + WorkingMemory: values remembered per tree, "
     "reset by snapshot substring), fact store coq/model/Facts.v, method table coq/model/Methods.v (twin of the harness fact library) - validated against "
@@ -86,7 +87,9 @@ EVAL_ASSUME = ENGINE_ASSUME + [
     "rules_ok: conditions are side-effect free; actions are assignments over side-effect free expressions, control built-ins and side-effect free calls "
     "(mutating fact methods are covered by the correspondence only)",
     "dependency_hypothesis (explicit in every theorem that needs it): a successful assignment to x changes the from-scratch value only of nodes whose "
-    "snapshot contains x's snapshot; proofs/Findings.v proves it cannot be dropped (D2, D3: recorded findings, reproduced on the real engine on every run)",
+    "snapshot contains x's snapshot; proofs/Findings.v proves it cannot be dropped (D2, D3: recorded findings, reproduced on the real engine on every run); "
+    "for FLAT rule sets (proofs/Frame.v: variables are fields of top-level facts, expressions from constants, negation, parentheses and the binary operators, "
+    "actions are assignments and control built-ins) both hypotheses are proved (Cxx_flat theorems) - there the theorems carry no assumption on the rules",
     "facts form a tree (no aliasing between fact objects); ASCII strings",
 ]
 
@@ -94,15 +97,15 @@ def eval_prop(pid, extra, theorems, expl):
     return dict(proof_files=REFINE_FILES + extra + ["props/%s.v" % pid], props_files=["props/%s.v" % pid], harness=pid, theorems=theorems,
                 trusted=EVAL_TRUST, assumptions=EVAL_ASSUME, explanation=expl)
 
-PROPS["C01"] = eval_prop("C01", ["proofs/AnchorsSitesMemo.v"], ["C01", "C01_hypothesis_needed"],
+PROPS["C01"] = eval_prop("C01", ["proofs/AnchorsSitesMemo.v"], ["C01", "C01_flat", "C01_hypothesis_needed"],
     "C01 is proved for the engine model WITH its working memory started from arbitrary memory contents, for every budget, flag, cancellation point and "
     "map order: engine_refines_spec (the memoising run equals the run that evaluates everything from scratch) + state tracking of the from-scratch run "
     "+ the protocol theorem C06. The hypothesis on invalidation is explicit and shown necessary by the D3 witness. Generated rule sets run on the real "
     "engine and the model; at every ExecuteRuleEntry the harness re-evaluates the rule alone on a deep copy of the facts.")
-PROPS["C02"] = eval_prop("C02", ["proofs/AnchorsSitesMemo.v"], ["C02"],
+PROPS["C02"] = eval_prop("C02", ["proofs/AnchorsSitesMemo.v"], ["C02", "C02_flat"],
     "C02: every active rule whose from-scratch condition is true is reported as candidate in each firing cycle, and at the quiescent exit no active rule's "
     "condition holds on the final facts; proved via the refinement theorem. Harness as for C01 plus multi-resource knowledge bases and chained activations.")
-PROPS["C04"] = eval_prop("C04", [], ["C04"],
+PROPS["C04"] = eval_prop("C04", [], ["C04", "C04_flat"],
     "C04: the action list with the working memory equals the in-order from-scratch list; each successful assignment computes its value on the current facts "
     "and write_target stores it (converted to the destination kind) at exactly the addressed path, every diverging path unchanged (lens laws). The harness "
     "compares all addressed locations and the frame on the caller's own Go objects.")
@@ -112,17 +115,17 @@ PROPS["C05"] = eval_prop("C05", ["proofs/AnchorsValues.v"], ["C05_operators", "C
     "every width; short-circuit, negation, parentheses, argument order proved on the SPEC evaluator; the grammar's operator levels (regenerated) match the "
     "model and the published table except for `&` (finding D4, refuted lemma + regression probes). Harness: operator x kind x kind grid, random typed "
     "trees against an independent documented-semantics evaluator, re-renderings, precedence probes.")
-PROPS["C07"] = eval_prop("C07", ["proofs/AnchorsSitesMemo.v"], ["C07"],
+PROPS["C07"] = eval_prop("C07", ["proofs/AnchorsSitesMemo.v"], ["C07", "C07_flat"],
     "C07: snapshots are injective on well-formed trees (sharing by snapshot = sharing of equal trees) and, inside any knowledge base and any sound memory, "
     "a rule's condition and actions compute what its own text computes on the facts. Harness: rule + generated near-sibling built together vs alone.")
-PROPS["C08"] = eval_prop("C08", ["proofs/AnchorsSitesMemo.v", "proofs/AnchorsSitesFlags.v"], ["C08"],
+PROPS["C08"] = eval_prop("C08", ["proofs/AnchorsSitesMemo.v", "proofs/AnchorsSitesFlags.v"], ["C08", "C08_flat"],
     "C08: Execute and FetchMatchingRules from arbitrary memory contents and arbitrary Retracted flags equal the call on a fresh instance; site inventory of "
     "every memo/flag mutation (incl. range-over-map resets) anchors ResetAll/Reset. Harness: histories of calls on one instance vs fresh instances.")
 PROPS["C13"] = eval_prop("C13", ["proofs/AnchorsSitesMemo.v"], ["C13"],
     "C13: a successful method call / field read is remembered; a remembered node is answered without touching facts, counters or memory; evaluating "
     "side-effect free nodes never drops an entry; assignment / Forget drop only nodes whose snapshot/text contains the argument. Harness: call counters "
     "of the fact library against the bound 1 + number of invalidation events.")
-PROPS["C14"] = eval_prop("C14", ["proofs/AnchorsSitesRecover.v"], ["C14"],
+PROPS["C14"] = eval_prop("C14", ["proofs/AnchorsSitesRecover.v"], ["C14", "C14_flat"],
     "C14: a failing condition leaves facts and memory sound and is the from-scratch verdict; without the flag no condition error is returned; with it the "
     "error names a rule whose condition fails on that cycle's facts; an action failure names the executing rule, is last, and keeps the completed prefix. "
     "Harness: faulty rule stream (missing facts, nil, ranges, kinds, division by zero, panicking methods).")
@@ -249,7 +252,7 @@ def _eval_text(what):
              "and the model (listener trace, outcome, final facts, call counts, snapshots), plus direct oracles on the implementation.",
         note="Trust: Coq kernel (+vm_compute), hand-written evaluator/engine models validated by correspondence, translator, harness. Hypotheses explicit in the "
              "theorems: side-effect free conditions/expressions (rules_ok) and the dependency hypothesis on invalidation (shown necessary; D2/D3 are recorded "
-             "findings). Only primitive int/float operations appear under Print Assumptions.",
+             "findings); both are PROVED for flat rule sets (fields of top-level facts, constants, !, parentheses, binary operators; assignments and control built-ins). Only primitive int/float operations appear under Print Assumptions.",
         technique="Rocq/Coq proof: refinement of a from-scratch spec engine by the memoising engine + differential correspondence (vm_compute)",
     )
 
